@@ -63,6 +63,53 @@ impl<K, V, S> HashMap<K, V, S> {
         }
     }
 }
+impl<K, V, S> HashMap<K, V, S> {
+    pub fn keys(&self) -> impl Iterator<Item = &K> {
+        self.iter().map(|p| p.0)
+    }
+    pub fn values(&self) -> impl Iterator<Item = &V> {
+        self.iter().map(|p| p.1)
+    }
+    pub fn values_mut(&mut self) -> impl Iterator<Item = &mut V> {
+        let n = self.len;
+        self.slots[..n].iter_mut().map(|s| unsafe { &mut s.assume_init_mut().1 })
+    }
+    pub fn iter_mut(&mut self) -> impl Iterator<Item = (&K, &mut V)> {
+        let n = self.len;
+        self.slots[..n].iter_mut().map(|s| {
+            let p = unsafe { s.assume_init_mut() };
+            (&p.0, &mut p.1)
+        })
+    }
+    /// removes and yields every entry
+    pub fn drain(&mut self) -> std::vec::IntoIter<(K, V)> {
+        let mut out = Vec::new();
+        while self.len > 0 {
+            self.len -= 1;
+            out.push(unsafe { self.slots[self.len].assume_init_read() });
+        }
+        out.into_iter()
+    }
+    pub fn retain(&mut self, mut f: impl FnMut(&K, &mut V) -> bool) {
+        let mut i = 0;
+        while i < self.len {
+            let keep = {
+                let p = self.at_mut(i);
+                f(&p.0, &mut p.1)
+            };
+            if keep {
+                i += 1;
+            } else {
+                drop(self.take_at(i));
+            }
+        }
+    }
+    pub fn capacity(&self) -> usize {
+        CAP
+    }
+    pub fn reserve(&mut self, _n: usize) {}
+    pub fn shrink_to_fit(&mut self) {}
+}
 impl<K, V, S> Drop for HashMap<K, V, S> {
     fn drop(&mut self) {
         self.clear();
@@ -165,8 +212,33 @@ impl<'a, K, V, S> OccupiedEntry<'a, K, V, S> {
     pub fn into_mut(self) -> &'a mut V {
         &mut self.map.at_mut(self.i).1
     }
+    pub fn get(&self) -> &V {
+        &self.map.at(self.i).1
+    }
+    pub fn get_mut(&mut self) -> &mut V {
+        &mut self.map.at_mut(self.i).1
+    }
+    pub fn key(&self) -> &K {
+        &self.map.at(self.i).0
+    }
+    /// replaces the value, returning the old one
+    pub fn insert(&mut self, v: V) -> V {
+        std::mem::replace(&mut self.map.at_mut(self.i).1, v)
+    }
+    pub fn remove(self) -> V {
+        self.map.take_at(self.i).1
+    }
+    pub fn remove_entry(self) -> (K, V) {
+        self.map.take_at(self.i)
+    }
 }
 impl<'a, K, V, S> VacantEntry<'a, K, V, S> {
+    pub fn key(&self) -> &K {
+        &self.key
+    }
+    pub fn into_key(self) -> K {
+        self.key
+    }
     pub fn insert(self, v: V) -> &'a mut V {
         let i = self.map.push(self.key, v);
         &mut self.map.at_mut(i).1
@@ -187,6 +259,18 @@ impl<'a, K, V, S> Entry<'a, K, V, S> {
             Entry::Occupied(o) => o.into_mut(),
             Entry::Vacant(e) => e.insert(V::default()),
         }
+    }
+    pub fn or_insert_with(self, f: impl FnOnce() -> V) -> &'a mut V {
+        match self {
+            Entry::Occupied(o) => o.into_mut(),
+            Entry::Vacant(e) => e.insert(f()),
+        }
+    }
+    pub fn and_modify(mut self, f: impl FnOnce(&mut V)) -> Self {
+        if let Entry::Occupied(o) = &mut self {
+            f(o.get_mut());
+        }
+        self
     }
 }
 impl<K, V, S> std::fmt::Debug for HashMap<K, V, S> {
@@ -244,6 +328,28 @@ impl<T, S> HashSet<T, S> {
         SetIter { m: &self.slots, i: 0, n: self.len }
     }
 }
+impl<T, S> HashSet<T, S> {
+    /// removes and yields every element
+    pub fn drain(&mut self) -> std::vec::IntoIter<T> {
+        let mut out = Vec::new();
+        while self.len > 0 {
+            self.len -= 1;
+            out.push(unsafe { self.slots[self.len].assume_init_read() });
+        }
+        out.into_iter()
+    }
+    pub fn capacity(&self) -> usize {
+        CAP
+    }
+    pub fn reserve(&mut self, _n: usize) {}
+}
+impl<'a, T, S> IntoIterator for &'a HashSet<T, S> {
+    type Item = &'a T;
+    type IntoIter = SetIter<'a, T>;
+    fn into_iter(self) -> SetIter<'a, T> {
+        self.iter()
+    }
+}
 impl<T, S> Drop for HashSet<T, S> {
     fn drop(&mut self) {
         self.clear();
@@ -297,6 +403,52 @@ impl<T: Eq, S> HashSet<T, S> {
                 true
             }
             None => false,
+        }
+    }
+    pub fn get<Q: ?Sized + Eq>(&self, k: &Q) -> Option<&T>
+    where
+        T: Borrow<Q>,
+    {
+        let i = self.pos(k)?;
+        Some(unsafe { self.slots[i].assume_init_ref() })
+    }
+    pub fn take<Q: ?Sized + Eq>(&mut self, k: &Q) -> Option<T>
+    where
+        T: Borrow<Q>,
+    {
+        let i = self.pos(k)?;
+        self.len -= 1;
+        let last = self.len;
+        unsafe {
+            let out = self.slots[i].assume_init_read();
+            if i != last {
+                let moved = self.slots[last].assume_init_read();
+                self.slots[i].write(moved);
+            }
+            Some(out)
+        }
+    }
+    pub fn retain(&mut self, mut f: impl FnMut(&T) -> bool) {
+        let mut i = 0;
+        while i < self.len {
+            if f(unsafe { self.slots[i].assume_init_ref() }) {
+                i += 1;
+            } else {
+                self.len -= 1;
+                let last = self.len;
+                unsafe {
+                    self.slots[i].assume_init_drop();
+                    if i != last {
+                        let moved = self.slots[last].assume_init_read();
+                        self.slots[i].write(moved);
+                    }
+                }
+            }
+        }
+    }
+    pub fn extend(&mut self, it: impl IntoIterator<Item = T>) {
+        for t in it {
+            self.insert(t);
         }
     }
     pub fn difference<'a>(&'a self, other: &'a HashSet<T, S>) -> Diff<'a, T, S> {
